@@ -3,6 +3,7 @@
 package gkvlite
 
 import (
+	"sync"
 	"unsafe"
 )
 
@@ -186,4 +187,70 @@ func VerifRootRefs(c *Collection) (refs int64, chained bool) {
 func VerifAllocStats() (res AllocStats) {
 	withAllocLocks(func() { res = allocStats })
 	return res
+}
+
+// verifMutex is a mutex that reports its use.  Nothing in this package
+// uses it as it stands: a simulator builds the package with a source
+// overlay in which the declarations of the collection root lock and of the
+// three free-list locks say verifMutex instead of sync.Mutex.  It can then
+// see which goroutine wants, holds and releases which lock, keep a
+// goroutine that wants a held lock parked (instead of letting it block on
+// the real mutex), and report a cycle of waiting goroutines as a deadlock.
+// Without VerifLockHook it is a plain mutex.
+type verifMutex struct{ mu sync.Mutex }
+
+// Lock events passed to VerifLockHook.
+const (
+	VerifLockWant = iota // about to acquire
+	VerifLockHeld        // acquired
+	VerifLockFree        // released
+)
+
+// VerifLockHook, when non-nil, is called around every Lock/Unlock of a
+// verifMutex with the lock's identity.
+var VerifLockHook func(lock interface{}, ev int)
+
+func (m *verifMutex) Lock() {
+	if h := VerifLockHook; h != nil {
+		h(m, VerifLockWant)
+		m.mu.Lock()
+		h(m, VerifLockHeld)
+		return
+	}
+	m.mu.Lock()
+}
+
+func (m *verifMutex) Unlock() {
+	m.mu.Unlock()
+	if h := VerifLockHook; h != nil {
+		h(m, VerifLockFree)
+	}
+}
+
+// VerifLockName names a lock passed to VerifLockHook.
+func VerifLockName(lock interface{}) string {
+	switch lock {
+	case &freeNodeLock:
+		return "freeNodeLock"
+	case &freeNodeLocLock:
+		return "freeNodeLocLock"
+	case &freeRootNodeLocLock:
+		return "freeRootNodeLocLock"
+	}
+	return "rootLock"
+}
+
+// VerifAbandonLocks replaces the three package-global free-list locks by
+// fresh ones.  A simulator that found a lock cycle leaves the goroutines
+// of that run parked for ever, some of them holding these locks; the next
+// simulated run in the same process must not inherit them.
+func VerifAbandonLocks() {
+	verifZero(&freeNodeLock)
+	verifZero(&freeNodeLocLock)
+	verifZero(&freeRootNodeLocLock)
+}
+
+func verifZero[T any](p *T) {
+	var z T
+	*p = z
 }
